@@ -73,15 +73,15 @@ theorem Regs.ev_r2 (h : Regs p.w m F r0 r1 r2) (hM : 5 * p.w < 256 ^ p.w) :
   have := h.sz; rw [ev_st (by unfold Prog.M; omega) (by omega), h.r2]
 end regev
 
-/-- frame condition on the stack side: the size is unchanged and outside `[lo,hi)` (and above
-the register file) every byte is unchanged -/
+/-- frame condition: the size is unchanged and outside `[lo,hi)` every byte that is not in the
+scratch registers `r0 r1 r2` (addresses `2w … 5w`) is unchanged — in particular `ap` and `fp` -/
 def Same (w : Nat) (m m' : Mem) (lo hi : Nat) : Prop :=
-  m'.size = m.size ∧ ∀ x, 5 * w ≤ x → (x < lo ∨ hi ≤ x) → m'.rd x = m.rd x
+  m'.size = m.size ∧ ∀ x, (x < 2 * w ∨ 5 * w ≤ x) → (x < lo ∨ hi ≤ x) → m'.rd x = m.rd x
 
 theorem Same.refl' (w : Nat) (m : Mem) (lo hi : Nat) : Same w m m lo hi := ⟨rfl, fun _ _ _ => rfl⟩
 
 theorem Same.reg {w : Nat} {m m' : Mem} {lo hi : Nat} (h : Same w m m' lo hi) (d v : Nat)
-    (hd : d + w ≤ 5 * w) : Same w m (m'.writeLE d w v) lo hi := by
+    (hd : 2 * w ≤ d ∧ d + w ≤ 5 * w) : Same w m (m'.writeLE d w v) lo hi := by
   refine ⟨by simpa using h.1, fun x hx hr => ?_⟩
   rw [Mem.rd_writeLE_other _ _ _ _ _ (by omega)]; exact h.2 x hx hr
 
